@@ -48,11 +48,24 @@ def run(ctx):
                 ctx.sample({"history": H.log[:5]})
         if ctx.violations:
             break
+    # content that changes between the two read passes of a new file, with a copy of the old content archived later in the same run: the
+    # hash of the first pass must not become something an extern line can refer to
+    if not ctx.violations:
+        from vlib import dynrun
+
+        def focus(size, where, previous, rules):
+            return size >= 5000 and previous != "shortcut" and rules[0][0] == "read" and any(a in ("rewrite", "regrow", "append") for _, _, a, _ in rules)
+        dynrun.sweep(ctx, rng, 120 if ctx.tier == "thorough" else 24, {"C02"}, focus=focus)
+        ctx.notes.append("files rewritten during the run: scheduled concurrent-writer runs (vlib/dynrun.py) with a copy of the victim's original content in a "
+                         "later item; clause 'every extern line refers to content a unique record of the group stores' and restorability")
     ctx.traces = ctx.evaluations
     ctx.assumptions += ["SHA-512 is collision-free on the generated contents (the model's hash is the content itself)",
                         "directory order seen by the run equals the order os.listdir reports for the unchanged directory"]
 
 
 def replay(ctx, doc):
+    if "rules" in doc:
+        from vlib import dynrun
+        return dynrun.replay_case(ctx, doc, {"C02"})
     print("replay: histories are regenerated deterministically from VERIF_SEED; the failing history is in the replay file")
     return 0
